@@ -14,6 +14,8 @@ CONSTANTS
   SweepOnly = FALSE
   SweepA <- SweepAs
   SweepB <- SweepBs
+  SweepKinds <- AllSweeps
+  ValuePos <- AllPos
   Sim = FALSE
 INIT Init
 NEXT Next
